@@ -300,6 +300,11 @@ func c08Jobs(tier string) []Job {
 		hs = append(hs, []string{"write $W/f", "touch $W/d/new ;; write $W/d/a", "rm $W/d/new"})
 		vars = append(vars, map[string]any{"init": init})
 	}
+	// the Add argument cleans to "." : entries are spelled "./entry" (argument, separator, entry)
+	for _, sp := range []string{".", "./", "d/..", "./."} {
+		hs = append(hs, []string{"touch $W/new1 ;; write $W/f", "mv $W/new1 $W/new2", "rm $W/new2"})
+		vars = append(vars, map[string]any{"init": []string{"A " + sp}})
+	}
 	// a listed link is retargeted to a directory/file that is already listed under its own name: that first name stays
 	for _, init := range [][]string{{"A d2", "A ld", "resym d2 ld", "A ld"}, {"A ld", "A d2", "resym d2 ld", "A ld"},
 		{"A d/a", "A lf", "resym d/a lf", "A lf"}, {"A lf", "resym d/a lf", "A lf"}, {"A ld", "resym d2 ld", "A ld"}} {
@@ -314,12 +319,14 @@ func c08Jobs(tier string) []Job {
 
 func bfsMoves(tier string) *BFSDef {
 	al := []string{"mv w/d/a w/d/c", "mv w/d/c w/d/a", "mv w/d/a w/d2/a", "mv w/d2/a w/d/a", "mv w/o/p w/d/p", "mv w/d/p w/o/p",
-		"mv w/d/b w/o/b", "mv w/o/b w/d2/b", "mv w/d/a w/d/b", "touch w/d/n", "rm w/d/n", "ln w/d/a w/d/h", "rm w/d/h", "mv w/d2/b w/d2/a"}
-	d, td := 3, 2
+		"mv w/d/b w/o/b", "mv w/o/b w/d2/b", "mv w/d/a w/d/b", "touch w/d/n", "rm w/d/n", "ln w/d/a w/d/h", "rm w/d/h", "mv w/d2/b w/d2/a",
+		// an individually watched file is moved (IN_MOVE_SELF, cookie 0) and comes back
+		"mv w/f w/g", "mv w/g w/f", "A w/f", "touch w/d2/m"}
+	d, td, pd := 3, 1, 2
 	if tier == "thorough" {
-		d, td = 5, 3
+		d, td, pd = 5, 3, 0
 	}
-	return &BFSDef{Name: "moves", Base: map[string]any{"fix": "std", "init": []string{"A w/d", "A w/d2"}}, Alphabet: al, Depth: d, TailBurst: 3, TailDepth: td}
+	return &BFSDef{Name: "moves", Base: map[string]any{"fix": "std", "init": []string{"A w/d", "A w/d2", "A w/f"}}, Alphabet: al, Depth: d, TailBurst: 3, TailDepth: td, PairDepth: pd}
 }
 
 // interleavings of k (FROM,TO) pairs that keep each FROM before its TO
@@ -452,6 +459,17 @@ func c10Jobs(tier string) []Job {
 		{"rm w/f ;; R w/f"}, {"rm w/f", "R w/f"}, {"rmr w/d ;; mkdir w/d ;; A w/d"}, {"rmr w/d ;; mkdir w/d", "A w/d"}, {"rmr w/d", "mkdir w/d ;; A w/d"},
 		{"rm w/f ;; touch w/f ;; A w/f"}, {"mv w/f w/g ;; touch w/f ;; A w/f ;; rm w/g"},
 	}
+	// a listed name comes to name a new inode while the old inode (and so its kernel watch) stays alive - an open
+	// descriptor, a spare hard link, an atomic rename onto it - then Add again and changes to the new file
+	for _, keep := range [][]string{{"open w/f", "rm w/f", "touch w/f"}, {"ln w/f w/h", "rm w/f", "touch w/f"}, {"ln w/f w/h", "touch w/g", "mv w/g w/f"},
+		{"open w/f", "touch w/g ;; mv w/g w/f"}, {"ln w/f w/h ;; rm w/f ;; touch w/f"}} {
+		for _, tail := range [][]string{{"A w/f", "write w/f", "chmod w/f ;; trunc w/f", "rm w/f"}, {"A w/f ;; write w/f", "mv w/f w/g2"}} {
+			hs = append(hs, append(append([]string{}, keep...), tail...))
+		}
+	}
+	for _, keep := range [][]string{{"open w/d/a", "rm w/d/a", "touch w/d/a"}, {"ln w/d/a w/h", "rm w/d/a", "touch w/d/a"}, {"ln w/d/a w/h", "mv w/d/b w/d/a"}} {
+		hs = append(hs, append(append([]string{"A w/d/a"}, keep...), "A w/d/a", "write w/d/a", "chmod w/d/a", "rm w/d/a"))
+	}
 	jobs = append(jobs, chunk(map[string]any{"fix": "std", "init": []string{"A w/d", "A w/f"}}, hs, nil, 3)...)
 	return jobs
 }
@@ -575,7 +593,7 @@ func c14Jobs(tier string) []Job {
 }
 
 func init() {
-	Checks["C08"] = &CheckDef{Prop: "C08", Jobs: c08Jobs,
+	Checks["C08"] = &CheckDef{Prop: "C08", Jobs: c08Jobs, BFS: func(tier string) []*BFSDef { return []*BFSDef{bfsRec(tier)} },
 		Rule:      "E2/E4: the cross product of Add spellings (relative, ./, //, x/../, trailing slash, /., absolute, via relative and absolute symlink to a directory, symlink to a file) x entry names of every padded length 16..256 plus space/dot/dash/multi-byte UTF-8 x position in a one- or two-record batch (three for the plain spelling), each run on the real code; expected name = filepath.Clean(argument) [+ '/' + entry], byte-exact; plus first-added-wins histories for link/target, hard link/file and several spellings of one directory",
 		Technique: "exhaustive enumeration of a finite spelling x name-shape x batch-position product on the real code against the reference model's byte-exact name",
 		Assume:    []string{"names are taken from the raw kernel records (read seam), spellings from the Add argument"}}
